@@ -158,7 +158,11 @@ class Representation(ObjectWithFields):
         default_sample_duration = 0
         moov: Optional[mp4.Mp4Atom] = None
         filename = os.path.basename(filename)
-        rep_id = os.path.splitext(filename)[0]
+        rep_id, ext = os.path.splitext(filename)
+        if ext.lower() not in {'.mp4', '.m4v', '.m4a', '.m4s'}:
+            # the name of a media file (which has no extension) can contain
+            # dots, e.g. "promo_1.5mbps_v1"
+            rep_id = filename
         rv = Representation(id=rep_id.lower(),
                             filename=filename,
                             version=Representation.VERSION)
